@@ -923,6 +923,22 @@ class EnumConverter(Converter[enum.Enum]):
 
         self.inner_ty = type_union(map(type, self.member_vals))
         self.inner_conv: Converter[t.Any] = make_converter(self.inner_ty, handlers)
+        # one converter per kind of member value, in declaration order
+        self.member_convs: t.List[Converter[t.Any]] = [
+            make_converter(val_ty, handlers) for val_ty in dict.fromkeys(map(type, self.member_vals))
+        ]
+
+    def _find(self, val: t.Any) -> t.Optional[enum.Enum]:
+        """The member `val` denotes when read as one of the member value types (of that very type: 1.0 is not the int 1)."""
+        for conv in self.member_convs:
+            try:
+                v = conv.try_convert(val)
+                member = self.val_map[v]
+            except (ParseInterrupt, KeyError, TypeError):  # not of this kind / not a member / not even hashable
+                continue
+            if type(member.value) is type(v):
+                return member
+        return None
 
     def into_data(self, val: t.Any) -> DataType:
         """See [`Converter.into_data`][pane.converters.Converter.into_data]"""
@@ -939,12 +955,8 @@ class EnumConverter(Converter[enum.Enum]):
         """See [`Converter.try_convert`][pane.converters.Converter.try_convert]"""
         if isinstance(val, self.ty):
             return val  # already a member (try_convert is idempotent)
-        val = self.inner_conv.try_convert(val)
-        try:
-            member = self.val_map[val]
-        except (KeyError, TypeError):  # not a member (or not even hashable)
-            raise ParseInterrupt()
-        if type(member.value) is not type(val):  # e.g. 1.0 for a member whose value is the int 1
+        member = self._find(val)
+        if member is None:
             raise ParseInterrupt()
         return member
 
@@ -952,15 +964,12 @@ class EnumConverter(Converter[enum.Enum]):
         """See [`Converter.collect_errors`][pane.converters.Converter.collect_errors]"""
         if isinstance(val, self.ty):
             return None
+        if self._find(val) is not None:
+            return None
         try:
-            conv_val = self.inner_conv.try_convert(val)
+            self.inner_conv.try_convert(val)
         except ParseInterrupt:
             return self.inner_conv.collect_errors(val)
-        try:
-            if type(self.val_map[conv_val].value) is type(conv_val):
-                return None
-        except (KeyError, TypeError):  # not a member (or not even hashable)
-            pass
         return WrongTypeError(self.expected(), val)
 
 
